@@ -63,6 +63,7 @@ class Forests:
     def __init__(self, ctx, opts=None):
         self.ctx = ctx
         self.h = zwcorr.Harness(ctx, secs=20)
+        self.h.finite = True
         self.dir = tempfile.mkdtemp(prefix="zwv-forest-", dir=os.path.join(common.VERIF, "build"))
         self.opts = opts or {}
         self.n = 0
